@@ -1059,7 +1059,7 @@ theorem resolveElem_ok {decls : List QDecl} {n : Name} {supE : List Elem} {e e' 
                 simp only [hs] at h
                 obtain ⟨hn, hm, _, _, ho, hp, _⟩ := setNewElem_ok hs
                 split at h
-                · cases hps : resolveParams e1.params ((findElem supE e.name).map (·.params) |>.getD []) with
+                · cases hps : resolveParams decls e1.params ((findElem supE e.name).map (·.params) |>.getD []) with
                   | error err => simp [hps] at h
                   | ok ps =>
                     simp [hps] at h; subst h
@@ -3121,7 +3121,7 @@ theorem resolveElem_quals {decls : List QDecl} {n : Name} {supE : List Elem} {e 
                 obtain ⟨_, _, _, _, _, _, hq⟩ := setNewElem_ok hs
                 have hsm := (findElem_some hfs).1
                 split at h
-                · cases hps : resolveParams e1.params ((findElem supE e.name).map (·.params) |>.getD []) with
+                · cases hps : resolveParams decls e1.params ((findElem supE e.name).map (·.params) |>.getD []) with
                   | error err => simp [hps] at h
                   | ok ps =>
                     simp [hps] at h; subst h
